@@ -74,6 +74,9 @@ type c16Cfg struct {
 	touch     bool     // alphabet additionally contains "another writer updates the waiting job" (stale copy => Update conflicts)
 	failRun   bool     // alphabet additionally contains Running -> Failed
 	reready   bool     // alphabet additionally contains "pod becomes ready again"
+	podDel    []string // pods that may be deleted while their job waits for arbitration
+	restart   bool     // alphabet additionally contains "the descheduler restarts" (fresh arbitrator, initial sync re-delivers all jobs)
+	dup       []string // pods for which a user may create a second job while one is live (no webhook / CRD rule forbids it)
 	adopted   []string // jobs that are already Running when the arbitrator starts (delivered as Create events by the initial sync)
 	depthQ    int
 	depthT    int
@@ -163,7 +166,7 @@ type c16Finder struct{ s *c16Sys }
 func (f *c16Finder) GetPodsForRef(ref *metav1.OwnerReference, ns string, _ *metav1.LabelSelector, _ bool) ([]*corev1.Pod, int32, error) {
 	var out []*corev1.Pod
 	for _, ps := range c16Universe {
-		if ps.wl == ref.Name && ps.ns == ns {
+		if ps.wl == ref.Name && ps.ns == ns && !f.s.gone[ps.name] {
 			out = append(out, f.s.podObj[ps.name])
 		}
 	}
@@ -202,6 +205,7 @@ type c16Sys struct {
 	seq    int                    // creation sequence number -> distinct creation timestamps
 	jobs   []v1alpha1.PodMigrationJob
 	fresh  bool
+	gone   map[string]bool // pods deleted from the API server
 }
 
 func c16MakePod(ps c16PodSpec) *corev1.Pod {
@@ -220,7 +224,7 @@ func c16MakePod(ps c16PodSpec) *corev1.Pod {
 
 func c16NewSys(cfg *c16Cfg, ops []c16Op, res *mc.Result) *c16Sys {
 	c16Init()
-	s := &c16Sys{cfg: cfg, ops: ops, res: res, podObj: map[string]*corev1.Pod{}, gen: map[string]int{}}
+	s := &c16Sys{cfg: cfg, ops: ops, res: res, podObj: map[string]*corev1.Pod{}, gen: map[string]int{}, gone: map[string]bool{}}
 	// plain object tracker: the default field-managed tracker re-registers the whole client-go scheme on every Build and
 	// computes managed fields on every write (server-side apply is not used by the arbitrator); resourceVersion
 	// conflicts, status sub-resource semantics and field-selector indexes live in the fake client itself and are kept
@@ -273,6 +277,18 @@ func c16NewSys(cfg *c16Cfg, ops []c16Op, res *mc.Result) *c16Sys {
 		}
 		s.podObj[ps.name] = p
 	}
+	s.buildArb()
+	for _, pn := range cfg.adopted {
+		s.createJob(pn, v1alpha1.PodMigrationJobRunning, true)
+	}
+	return s
+}
+
+// buildArb: what arbitrator.New() + the controller's Watch set up: an empty waiting collection, an empty in-memory
+// passed set, the production filter wiring and sort chain, the arbitration event handler. Nothing else is rebuilt at
+// start-up (markJobPassedArbitration is only ever called by updatePassedJob).
+func (s *c16Sys) buildArb() {
+	cfg := s.cfg
 	args := &config.MigrationControllerArgs{
 		MaxMigratingPerNode:       cfg.perNode,
 		MaxMigratingPerNamespace:  cfg.perNs,
@@ -297,10 +313,18 @@ func c16NewSys(cfg *c16Cfg, ops []c16Op, res *mc.Result) *c16Sys {
 		eventRecorder: &events.FakeRecorder{},
 	}
 	s.h = NewHandler(s.arb, s.cl)
-	for _, pn := range cfg.adopted {
-		s.createJob(pn, v1alpha1.PodMigrationJobRunning, true)
+}
+
+// restart: the descheduler process restarts. The controller's Watch on PodMigrationJob has no Create predicate, so
+// the informer's initial list is delivered as one Create event per existing job - whatever its phase - to the
+// arbitration handler, which puts every one of them into the waiting collection.
+func (s *c16Sys) restart() {
+	s.buildArb()
+	s.fresh = false
+	jobs := s.listJobs()
+	for i := range jobs {
+		s.h.Create(context.TODO(), event.CreateEvent{Object: jobs[i].DeepCopy()}, c16NopQueue{})
 	}
-	return s
 }
 
 func c16Spec(pn string) c16PodSpec {
@@ -358,6 +382,7 @@ func (s *c16Sys) listJobs() []v1alpha1.PodMigrationJob {
 			panic(err)
 		}
 		s.jobs = l.Items
+		sort.Slice(s.jobs, func(i, j int) bool { return s.jobs[i].Name < s.jobs[j].Name })
 		s.fresh = true
 	}
 	return s.jobs
@@ -389,6 +414,24 @@ func (s *c16Sys) liveJob(pn string) *v1alpha1.PodMigrationJob {
 		}
 	}
 	return nil
+}
+
+// liveJobWhere returns the first (oldest) live job of pod pn that satisfies pred.
+func (s *c16Sys) liveJobWhere(pn string, pred func(j *v1alpha1.PodMigrationJob) bool) *v1alpha1.PodMigrationJob {
+	jobs := s.listJobs()
+	for i := range jobs {
+		j := &jobs[i]
+		if j.Spec.PodRef != nil && j.Spec.PodRef.Name == pn && c16Live(j) && pred(j) {
+			return j
+		}
+	}
+	return nil
+}
+
+func (s *c16Sys) liveJobs(pn string) int {
+	n := 0
+	s.liveJobWhere(pn, func(*v1alpha1.PodMigrationJob) bool { n++; return false })
+	return n
 }
 
 func (s *c16Sys) isWaiting(j *v1alpha1.PodMigrationJob) bool {
@@ -424,10 +467,17 @@ func c16BuildOps(cfg *c16Cfg) []c16Op {
 		apply:   func(s *c16Sys) { s.arb.doOnceArbitrate(); s.fresh = false }})
 	for _, pn := range cfg.elig {
 		pn := pn
+		canRun := func(j *v1alpha1.PodMigrationJob) bool {
+			return c16Phase(j) == v1alpha1.PodMigrationJobPending && (c16Passed(j) || j.Labels["touched"] != "")
+		}
+		canFinish := func(j *v1alpha1.PodMigrationJob) bool {
+			return c16Phase(j) == v1alpha1.PodMigrationJobRunning || c16Passed(j)
+		}
+		isRunning := func(j *v1alpha1.PodMigrationJob) bool { return c16Phase(j) == v1alpha1.PodMigrationJobRunning }
 		ops = append(ops,
 			// the descheduler (after Filter(pod) said yes) or a user creates a job for a pod that has no live job
 			c16Op{name: "addJob(" + pn + ")", pod: pn, kind: "add",
-				enabled: func(s *c16Sys) bool { return s.liveJob(pn) == nil },
+				enabled: func(s *c16Sys) bool { return !s.gone[pn] && s.liveJob(pn) == nil },
 				apply: func(s *c16Sys) {
 					ph := v1alpha1.PodMigrationJobPending // what CreatePodMigrationJob writes
 					if strings.HasPrefix(pn, "b") {
@@ -437,15 +487,13 @@ func c16BuildOps(cfg *c16Cfg) []c16Op {
 				}},
 			// the migration controller starts a job: it reconciles a job on every Update event of the job, i.e. after the
 			// arbitrator annotated it as passed - or after any other writer updated it (the reconciler itself does not look
-			// at the annotation), which is how a limit can be exceeded BEFORE a round
+			// at the annotation), which is how a limit can be exceeded BEFORE a round. (When the pod is gone the
+			// controller fails the job instead: see finish.)
 			c16Op{name: "running(" + pn + ")", pod: pn, kind: "running",
-				enabled: func(s *c16Sys) bool {
-					j := s.liveJob(pn)
-					return j != nil && c16Phase(j) == v1alpha1.PodMigrationJobPending && (c16Passed(j) || j.Labels["touched"] != "")
-				},
+				enabled: func(s *c16Sys) bool { return !s.gone[pn] && s.liveJobWhere(pn, canRun) != nil },
 				apply: func(s *c16Sys) {
 					// preparePendingJob: write the pod UID into the spec (Update), then the phase (Status().Update)
-					j := s.liveJob(pn)
+					j := s.liveJobWhere(pn, canRun)
 					cur := s.getJob(j.Name)
 					ps := c16Spec(pn)
 					cur.Spec.PodRef.UID = types.UID(ps.ns + "/" + ps.name)
@@ -454,16 +502,14 @@ func c16BuildOps(cfg *c16Cfg) []c16Op {
 					}
 					s.fresh = false
 					s.h.Update(context.TODO(), event.UpdateEvent{ObjectOld: j.DeepCopy(), ObjectNew: s.getJob(j.Name)}, c16NopQueue{})
-					s.setPhase(s.liveJob(pn), v1alpha1.PodMigrationJobRunning)
+					s.setPhase(s.getJob(j.Name), v1alpha1.PodMigrationJobRunning)
 				}},
-			// the job completes: Running -> Succeeded, passed-but-not-started -> Aborted (timeout path)
+			// the job completes: Running -> Succeeded, passed-but-not-started -> Aborted (timeout path; for a job whose
+			// pod is gone this stands for the controller's abortJobByMissingPod)
 			c16Op{name: "finish(" + pn + ")", pod: pn, kind: "finish",
-				enabled: func(s *c16Sys) bool {
-					j := s.liveJob(pn)
-					return j != nil && (c16Phase(j) == v1alpha1.PodMigrationJobRunning || c16Passed(j))
-				},
+				enabled: func(s *c16Sys) bool { return s.liveJobWhere(pn, canFinish) != nil },
 				apply: func(s *c16Sys) {
-					j := s.liveJob(pn)
+					j := s.liveJobWhere(pn, canFinish)
 					if c16Phase(j) == v1alpha1.PodMigrationJobRunning {
 						s.setPhase(j, v1alpha1.PodMigrationJobSucceeded)
 					} else {
@@ -473,11 +519,8 @@ func c16BuildOps(cfg *c16Cfg) []c16Op {
 		)
 		if cfg.failRun {
 			ops = append(ops, c16Op{name: "failRunning(" + pn + ")", pod: pn, kind: "fail",
-				enabled: func(s *c16Sys) bool {
-					j := s.liveJob(pn)
-					return j != nil && c16Phase(j) == v1alpha1.PodMigrationJobRunning
-				},
-				apply: func(s *c16Sys) { s.setPhase(s.liveJob(pn), v1alpha1.PodMigrationJobFailed) }})
+				enabled: func(s *c16Sys) bool { return s.liveJobWhere(pn, isRunning) != nil },
+				apply:   func(s *c16Sys) { s.setPhase(s.liveJobWhere(pn, isRunning), v1alpha1.PodMigrationJobFailed) }})
 		}
 		if cfg.touch {
 			// another writer (kubectl label, a mutating controller) updates a job the arbitrator still holds a copy of
@@ -497,6 +540,39 @@ func c16BuildOps(cfg *c16Cfg) []c16Op {
 					s.h.Update(context.TODO(), event.UpdateEvent{ObjectOld: j.DeepCopy(), ObjectNew: s.getJob(j.Name)}, c16NopQueue{})
 				}})
 		}
+		if c16In(cfg.podDel, pn) {
+			// the pod of a job that still waits for arbitration is deleted (rollout, scale-down, node drain ...). The
+			// migration controller watches PodMigrationJobs and Reservations only: the arbitrator receives no event.
+			ops = append(ops, c16Op{name: "podDeleted(" + pn + ")", pod: pn, kind: "podDeleted",
+				enabled: func(s *c16Sys) bool {
+					return !s.gone[pn] && s.liveJobWhere(pn, func(j *v1alpha1.PodMigrationJob) bool {
+						return c16Phase(j) == v1alpha1.PodMigrationJobPending && !c16Passed(j) && s.isWaiting(j)
+					}) != nil
+				},
+				apply: func(s *c16Sys) {
+					ps := c16Spec(pn)
+					p := &corev1.Pod{}
+					if err := s.cl.Get(context.TODO(), types.NamespacedName{Namespace: ps.ns, Name: ps.name}, p); err != nil {
+						panic(err)
+					}
+					if err := s.cl.Delete(context.TODO(), p); err != nil {
+						panic(err)
+					}
+					s.gone[pn] = true
+				}})
+		}
+		if c16In(cfg.dup, pn) {
+			// a user creates a second PodMigrationJob for a pod that already has a live one: the API server admits it
+			// (there is no validating webhook for PodMigrationJob and the CRD has no cross-object rule)
+			ops = append(ops, c16Op{name: "dupJob(" + pn + ")", pod: pn, kind: "dup",
+				enabled: func(s *c16Sys) bool { return !s.gone[pn] && s.liveJobs(pn) == 1 },
+				apply:   func(s *c16Sys) { s.createJob(pn, "", false) }})
+		}
+	}
+	if cfg.restart {
+		ops = append(ops, c16Op{name: "restart()", kind: "restart",
+			enabled: func(s *c16Sys) bool { return len(s.listJobs()) > 0 },
+			apply:   func(s *c16Sys) { s.restart() }})
 	}
 	for _, pn := range cfg.unreadyOK {
 		pn := pn
@@ -523,11 +599,11 @@ func c16BuildOps(cfg *c16Cfg) []c16Op {
 			s.podObj[pn] = q
 		}
 		ops = append(ops, c16Op{name: "unready(" + pn + ")", pod: pn, kind: "unready",
-			enabled: func(s *c16Sys) bool { return c16Ready(s.podObj[pn]) },
+			enabled: func(s *c16Sys) bool { return !s.gone[pn] && c16Ready(s.podObj[pn]) },
 			apply:   func(s *c16Sys) { setReady(s, false) }})
 		if cfg.reready {
 			ops = append(ops, c16Op{name: "ready(" + pn + ")", pod: pn, kind: "ready",
-				enabled: func(s *c16Sys) bool { return !c16Ready(s.podObj[pn]) },
+				enabled: func(s *c16Sys) bool { return !s.gone[pn] && !c16Ready(s.podObj[pn]) },
 				apply:   func(s *c16Sys) { setReady(s, true) }})
 		}
 	}
@@ -548,6 +624,8 @@ func c16Ready(p *corev1.Pod) bool {
 
 type c16JobObs struct {
 	uid, name, pod string
+	podNs          string // namespace named by the job's pod reference
+	marked         bool   // in the arbitrator's in-memory passed set (only used to label witness classes)
 	rawPhase       string
 	phase          string
 	passed         bool
@@ -586,8 +664,10 @@ func (s *c16Sys) observe() c16Obs {
 			created: j.CreationTimestamp.Unix()}
 		if j.Spec.PodRef != nil {
 			jo.pod = j.Spec.PodRef.Name
+			jo.podNs = j.Spec.PodRef.Namespace
 		}
 		_, jo.waiting = s.arb.waitingCollection[j.UID]
+		jo.marked = s.arb.filter.arbitratedPodMigrationJobs[j.UID]
 		o.jobs[jo.uid] = jo
 	}
 	return o
@@ -621,6 +701,10 @@ func c16Count(o c16Obs, except string) c16Counts {
 		}
 		p, ok := o.pods[j.pod]
 		if !ok {
+			// the pod is gone: the job still is a job that passed / runs; the namespace is named by its pod reference,
+			// node and workload are no longer known from the API objects
+			c.ns[j.podNs]++
+			c.global++
 			continue
 		}
 		c.node[p.node]++
@@ -667,11 +751,51 @@ func (s *c16Sys) viol(clause, what string) mc.Violation {
 	return mc.Violation{Key: "C16|arb|" + clause, What: "[" + s.cfg.name + ": " + s.cfg.caps() + "] " + what}
 }
 
+// c16Class labels the witness class of a violation by what the judged state carries over from the environment events
+// that lie outside the plain add / round / run / finish cycle: a live job whose pod was deleted, a job that was
+// admitted by an earlier arbitrator incarnation (annotation present, not in the in-memory passed set), two live jobs
+// for one pod. The label only names the class (for /verif/known_findings.json); the verdict never depends on it.
+func c16Class(o c16Obs) string {
+	var del, rst, dup bool
+	perPod := map[string]int{}
+	for _, j := range o.jobs {
+		if !j.live() {
+			continue
+		}
+		perPod[j.pod]++
+		if _, ok := o.pods[j.pod]; !ok {
+			del = true
+		}
+		if j.phase == "Pending" && j.passed && !j.marked {
+			rst = true
+		}
+	}
+	for _, n := range perPod {
+		if n > 1 {
+			dup = true
+		}
+	}
+	out := ""
+	if del {
+		out += "|after:podDeleted"
+	}
+	if rst {
+		out += "|after:restart"
+	}
+	if dup {
+		out += "|after:duplicateJob"
+	}
+	return out
+}
+
 // lacksHeadroom lists the limits that leave no room for one more migration of pod p, given the jobs counted in o
 // (the job `except` itself is left out).
 func (s *c16Sys) lacksHeadroom(o c16Obs, p c16PodObs, except string) []string {
 	c := c16Count(o, except)
 	var out []string
+	if p.name == "" {
+		return nil // pod gone: otherReason applies
+	}
 	if cap, ok := c16I32(s.cfg.perNode); ok && c.node[p.node]+1 > cap {
 		out = append(out, "node")
 	}
@@ -697,9 +821,18 @@ func (s *c16Sys) lacksHeadroom(o c16Obs, p c16PodObs, except string) []string {
 }
 
 // otherReason: is there a reason other than missing headroom to refuse migrating a pod of this workload? In this
-// universe (owned, non-critical pods without volumes) the only one is the expected-replicas rule: a workload whose
+// universe (owned, non-critical pods without volumes) these are: the pod is gone, the pod has another live job, and the
+// expected-replicas rule: a workload whose
 // whole replica count equals its migration / unavailability allowance (or that has a single replica) is never migrated.
-func (s *c16Sys) otherReason(p c16PodObs) bool {
+func (s *c16Sys) otherReason(o c16Obs, p c16PodObs, self string) bool {
+	if p.name == "" {
+		return true // the pod no longer exists: nothing can be migrated
+	}
+	for _, j := range o.jobs {
+		if j.uid != self && j.live() && j.pod == p.name {
+			return true // "a pod that already has a live migration job never gets a second one"
+		}
+	}
 	r := c16Replicas[p.wl]
 	if r == 1 {
 		return true
@@ -713,10 +846,18 @@ func (s *c16Sys) otherReason(p c16PodObs) bool {
 	return false
 }
 
-func (s *c16Sys) judgeRound(before, after c16Obs) []mc.Violation {
-	var viol []mc.Violation
+func (s *c16Sys) judgeRound(before, after c16Obs) (viol []mc.Violation) {
 	res := s.res
 	res.Count("rounds", 1)
+	class := c16Class(before)
+	if class != "" {
+		res.Count("rounds"+class, 1)
+	}
+	defer func() {
+		for i := range viol {
+			viol[i].Key += class
+		}
+	}()
 	cb, ca := c16Count(before, ""), c16Count(after, "")
 	// --- caps (with the "already exceeded before the round" proviso)
 	chk := func(limit, group string, b, a, cap int) {
@@ -776,7 +917,7 @@ func (s *c16Sys) judgeRound(before, after c16Obs) []mc.Violation {
 			failN++
 			res.Count("jobs_failed_by_round", 1)
 			lack := s.lacksHeadroom(after, p, uid)
-			if s.otherReason(p) {
+			if s.otherReason(after, p, uid) {
 				res.Count("failed_with_non_headroom_reason", 1)
 			} else if len(lack) > 0 {
 				viol = append(viol, s.viol("failed-for-lack-of-headroom|"+strings.Join(lack, "+"),
@@ -793,7 +934,7 @@ func (s *c16Sys) judgeRound(before, after c16Obs) []mc.Violation {
 			}
 		default:
 			// refused (or its update did not go through): must still be waiting, untouched
-			if s.otherReason(p) {
+			if s.otherReason(after, p, uid) {
 				// a job that is to be rejected for good but whose status update did not go through: not described by the statement
 				res.Count("diag_non_retryable_rejection_not_recorded", 1)
 				continue
@@ -857,6 +998,9 @@ func (s *c16Sys) Apply(op int, check bool) (bool, []mc.Violation) {
 func (s *c16Sys) Invariants() []mc.Violation {
 	var viol []mc.Violation
 	for _, ps := range c16Universe {
+		if s.gone[ps.name] {
+			continue // the descheduler only asks about pods that exist
+		}
 		got := s.arb.Filter(s.podObj[ps.name].DeepCopy())
 		j := s.liveJob(ps.name)
 		switch {
@@ -874,6 +1018,12 @@ func (s *c16Sys) Invariants() []mc.Violation {
 			s.res.Count("Filter_true", 1)
 		default:
 			s.res.Count("Filter_false_no_headroom", 1)
+		}
+	}
+	if len(viol) > 0 {
+		class := c16Class(s.observe())
+		for i := range viol {
+			viol[i].Key += class
 		}
 	}
 	return viol
@@ -894,26 +1044,28 @@ func (s *c16Sys) Key() string {
 	}
 	var ws []w
 	for _, ps := range c16Universe {
-		fmt.Fprintf(&sb, "%s:r=%v", ps.name, c16Ready(s.podObj[ps.name]))
+		fmt.Fprintf(&sb, "%s:r=%v,gone=%v", ps.name, c16Ready(s.podObj[ps.name]), s.gone[ps.name])
 		var fin []string
 		for i := range jobs {
 			j := &jobs[i]
 			if j.Spec.PodRef == nil || j.Spec.PodRef.Name != ps.name {
 				continue
 			}
-			if !c16Live(j) {
-				fin = append(fin, string(j.Status.Phase))
-				if _, ok := s.arb.waitingCollection[j.UID]; ok {
-					fin = append(fin, "stillwaiting")
-				}
-				if s.arb.filter.arbitratedPodMigrationJobs[j.UID] {
-					fin = append(fin, "stillmarked")
-				}
-				continue
-			}
 			wc, inW := s.arb.waitingCollection[j.UID]
 			stale := inW && wc.ResourceVersion != j.ResourceVersion
-			fmt.Fprintf(&sb, ",job{%q,passed=%v,waiting=%v,marked=%v,stale=%v}", j.Status.Phase, c16Passed(j), inW, s.arb.filter.arbitratedPodMigrationJobs[j.UID], stale)
+			if !c16Live(j) {
+				f := string(j.Status.Phase)
+				if inW {
+					f += fmt.Sprintf(":stillwaiting(passed=%v,stale=%v)", c16Passed(j), stale)
+				}
+				if s.arb.filter.arbitratedPodMigrationJobs[j.UID] {
+					f += ":stillmarked"
+				}
+				fin = append(fin, f)
+				continue
+			}
+			fmt.Fprintf(&sb, ",job{%q,passed=%v,waiting=%v,marked=%v,stale=%v,touched=%v,uid=%v}", j.Status.Phase, c16Passed(j), inW,
+				s.arb.filter.arbitratedPodMigrationJobs[j.UID], stale, j.Labels["touched"] != "", j.Spec.PodRef.UID != "")
 			if inW {
 				ws = append(ws, w{ps.name, j.CreationTimestamp.Unix()})
 			}
@@ -962,18 +1114,20 @@ func c16Configs(env *mc.Env) []*c16Cfg {
 		// namespace cap binding inside w1's two slots, global cap 2 across namespaces
 		{name: "ns1-global2", elig: all, perNs: i(1), global: i(2), perWl: c16IS("70%"), maxUnav: c16IS("70%"), depthQ: 6, depthT: 9},
 		// workload cap (1) below the unavailability allowance (2 for w1), node cap 2
-		{name: "wl1-node2", elig: []string{"a1", "a2", "a3", "b1"}, perNode: i(2), perWl: c16IS("1"), maxUnav: c16IS("70%"), unreadyOK: []string{"a2"}, depthQ: 7, depthT: 10},
+		{name: "wl1-node2-restart", elig: []string{"a1", "a2", "a3", "b1"}, perNode: i(2), perWl: c16IS("1"), maxUnav: c16IS("70%"), unreadyOK: []string{"a2"}, restart: true, depthQ: 7, depthT: 9},
 		// unavailability 50% (1 of 3, 1 of 2) below the workload cap, pods turning unready (also beyond the allowance)
 		{name: "unav50pct", elig: []string{"a1", "a2", "b1"}, perWl: c16IS("70%"), maxUnav: c16IS("50%"), unreadyOK: []string{"a1", "a3", "b2"}, depthQ: 7, depthT: 10},
 		// unavailability 1, global 2, everything else unset
-		{name: "unav1-global2", elig: []string{"a1", "a3", "b1", "b2"}, global: i(2), maxUnav: c16IS("1"), unreadyOK: []string{"a2"}, depthQ: 7, depthT: 10},
+		{name: "unav1-global2-poddel", elig: []string{"a1", "a3", "b1", "b2"}, global: i(2), maxUnav: c16IS("1"), unreadyOK: []string{"a2"}, podDel: []string{"a3", "b2"}, depthQ: 7, depthT: 9},
 		// allowance == replicas for w2: its jobs are refused for good (Failed) while w1 competes for node / namespace slots
 		{name: "wl2-nonretryable", elig: all, perNode: i(2), perNs: i(2), perWl: c16IS("2"), maxUnav: c16IS("2"), depthQ: 6, depthT: 9},
 		// the arbitrator's copy of a waiting job goes stale (another writer updated the job): its Update conflicts
 		// (the update event also makes the migration controller start the job without arbitration: limits exceeded before a round)
-		{name: "conflict-ns1-global2", elig: []string{"a1", "b1", "b2"}, perNs: i(1), global: i(2), perWl: c16IS("70%"), maxUnav: c16IS("70%"), touch: true, depthQ: 7, depthT: 10},
+		{name: "conflict-ns1-global2-restart-poddel", elig: []string{"a1", "b1", "b2"}, perNs: i(1), global: i(2), perWl: c16IS("70%"), maxUnav: c16IS("70%"), touch: true, restart: true, podDel: []string{"b1"}, depthQ: 7, depthT: 9},
 		// jobs already Running above the node cap when the arbitrator starts (delivered as Create events by the initial
 		// sync): the only way a count cap can be "already exceeded before the round"
+		// a user creates a second job for a pod that already has a live one (admitted by the API: no webhook, no CRD rule)
+		{name: "dup-node1", elig: []string{"a1", "a3"}, dup: []string{"a1"}, perNode: i(1), perWl: c16IS("70%"), maxUnav: c16IS("70%"), depthQ: 7, depthT: 10},
 		{name: "adopted-running-node1", elig: all, adopted: []string{"a1", "a3"}, perNode: i(1), global: i(3), perWl: c16IS("70%"), maxUnav: c16IS("70%"), depthQ: 6, depthT: 9},
 	}
 	if env.Thorough() {
@@ -982,7 +1136,7 @@ func c16Configs(env *mc.Env) []*c16Cfg {
 			&c16Cfg{name: "all-caps-2", elig: all, perNode: i(2), perNs: i(2), global: i(2), perWl: c16IS("70%"), maxUnav: c16IS("70%"), unreadyOK: []string{"a3", "b2"}, failRun: true, depthT: 8},
 			&c16Cfg{name: "node2-ns2-unav50pct", elig: all, perNode: i(2), perNs: i(2), perWl: c16IS("70%"), maxUnav: c16IS("50%"), unreadyOK: []string{"a1", "b1"}, reready: true, depthT: 8},
 			&c16Cfg{name: "global1-unav2-conflict", elig: all, global: i(1), perWl: c16IS("2"), maxUnav: c16IS("2"), touch: true, depthT: 8},
-			&c16Cfg{name: "node1-ns2-wl-unset", elig: all, perNode: i(1), perNs: i(2), maxUnav: c16IS("70%"), unreadyOK: []string{"a2"}, depthT: 8},
+			&c16Cfg{name: "node1-ns2-wl-unset-restart-poddel", elig: all, perNode: i(1), perNs: i(2), maxUnav: c16IS("70%"), unreadyOK: []string{"a2"}, restart: true, podDel: []string{"a1", "b2"}, depthT: 8},
 		)
 	}
 	return cfgs
@@ -1005,15 +1159,25 @@ func TestVerifC16Arb(t *testing.T) {
 		if cfg.reready {
 			extra += "; unready pods become ready again"
 		}
+		if len(cfg.podDel) > 0 {
+			extra += fmt.Sprintf("; the pod of a still waiting job is deleted (pods %v; the arbitrator gets no event for it)", cfg.podDel)
+		}
+		if cfg.restart {
+			extra += "; the descheduler restarts (fresh arbitratorImpl + filter with empty waiting collection and empty in-memory passed set, then one Create event per existing job of any phase from the informer's initial list, exactly what New() + the controller's Watch do)"
+		}
+		if len(cfg.dup) > 0 {
+			extra += fmt.Sprintf("; a user creates a second job for a pod that already has a live one (pods %v)", cfg.dup)
+		}
 		if len(cfg.adopted) > 0 {
 			extra += fmt.Sprintf("; initial state: jobs for %v are already Running and were delivered to the arbitrator by the initial sync", cfg.adopted)
 		}
 		res.Rule = fmt.Sprintf("BFS over all event sequences of the %d-event alphabet {one arbitration round (doOnceArbitrate); per eligible pod %v: a job for the pod is created in the API server and handed to the arbitrator by its event handler, the passed job is set Running, the job finishes (Running->Succeeded / passed->Aborted; the handler drops it from the arbitrator); pods %v turn unready%s} on the real arbitratorImpl + filter (production initFilters wiring, production sort chain) over a controller-runtime fake client with the production field indexes; caps: %s. After every round the API objects are judged against the statement; at every reached state Filter(pod) is asked for all five pods. A state is distinct when pod readiness, the live job's phase / passed annotation / waiting-collection and passed-set membership / staleness, the terminal phases seen per pod or the creation order of the waiting jobs differ.",
 			len(ops), cfg.elig, cfg.unreadyOK, extra, cfg.caps())
 		res.Assumptions = []string{
-			"a new job is only created for a pod without a live job (the descheduler asks Filter first; users are assumed not to create duplicate jobs)",
-			"one arbitrator incarnation: the in-memory passed set is never lost between a job passing arbitration and the job being started (no restart in that window)",
-			"API reads are fresh (fake client, no informer lag); events between rounds are atomic; pods are not deleted while their job waits",
+			"unless the configuration's alphabet contains dupJob: a new job is only created for a pod without a live job (the descheduler asks Filter first)",
+			"unless the configuration's alphabet contains restart(): one arbitrator incarnation; unless it contains podDeleted: pods are not deleted while their job waits",
+			"after a restart the migration controller treats every job like a user-created one (it would ignore jobs stamped with the previous incarnation's reconciler UID)",
+			"API reads are fresh (fake client, no informer lag); events between rounds are atomic",
 			"expected replicas: w1=3 (pods a1 a2 a3, namespace x), w2=2 (b1 b2, namespace y); n1 hosts a1 a3 b1, n2 hosts a2 b2; percent settings are rounded down and at least 1",
 		}
 		// every configuration gets an equal share of what is left of the unit's budget, so that a slow machine caps all
